@@ -645,7 +645,16 @@ async fn run_world(f: &mut Fixture, ns: NamespaceId, not_syncing: NamespaceId, m
                 let peer = f.ids[w.map[1 - n]];
                 let other_running = is_running(&snapshot(f, &w, 1 - n).await);
                 let mine_before = snapshot(f, &w, n).await;
-                let started = f.actors[me].verif_sync_with_peer(w.ns, peer, reason);
+                let started = if lifecycle && reason == SyncReason::SyncReport {
+                    // through the real report handler (hook H9): the documents of a lifecycle run exist and are empty, so a
+                    // report naming any author is news
+                    let mut heads = iroh_docs::AuthorHeads::default();
+                    heads.insert(iroh_docs::AuthorId::from(&[0x77u8; 32]), 1 + w.step as u64);
+                    o.class("sync-report-through-the-real-report-handler");
+                    f.actors[me].verif_sync_report(peer, w.ns, es(heads.encode(None))?).await
+                } else {
+                    f.actors[me].verif_sync_with_peer(w.ns, peer, reason)
+                };
                 // every dial decision counts against the budget, also a refused one
                 w.dials += 1;
                 if !w.syncing[n] {
